@@ -9,6 +9,9 @@ CONSTANTS
   MaxRej = 2
   Impl = "pinned"
   Sym = FALSE
+  NCallers = 0
+  Removal = "skip"
+  Emit = "all"
 VIEW View
 INVARIANTS R0ok
 CHECK_DEADLOCK FALSE
